@@ -116,6 +116,7 @@ type RangeSpec struct {
 }
 
 type ImmutableSpec struct {
+	AuditOnly bool
 	Except  []string // functions whose stores were inspected by hand (listed as assumption)
 	Sel     string
 	PkgPath string
@@ -303,6 +304,11 @@ func (cs *ContractSet) parseFile(p *packages.Package, f *ast.File, fname string)
 						j++
 					}
 					rest2 = rest2[j:]
+				case "audit-only":
+					// the frame obligation only: the listed exceptions DO write
+					// existing objects, so the field is re-versioned like any other
+					im.AuditOnly = true
+					rest2 = rest2[1:]
 				default:
 					rest2 = rest2[1:]
 				}
